@@ -12,6 +12,7 @@ func init() { register("C13", factsC13) }
 
 func factsC13(r *Repo) []Fact {
 	var out []Fact
+	out = append(out, transC13(r)) // gotrans phase 6: Gen/TransC13.lean (trans_c13.go)
 	// internalErrorHasUnwrap: method Unwrap on (*)internalError whose body returns <recv>.origError
 	cp := r.Pkg("compose")
 	has := false
